@@ -1037,9 +1037,11 @@ fn run_ops<const D: usize, const F: usize, const V: usize>(
     }
     let mut ctx: Ctx<D, F, V> = Ctx { vm: &vm, vals, vars: HashMap::new(), open_files: Vec::new(), id_offset };
     let mut clk = 100u32;
-    let mut queue: std::collections::VecDeque<J> = ops.iter().cloned().collect();
+    // every scenario op carries its index, so that outcomes can be lined up with what a model predicted
+    let mut queue: std::collections::VecDeque<J> = ops.iter().cloned().enumerate().map(|(i, mut o)| { o["_i"] = json!(i); o }).collect();
     while let Some(op_owned) = queue.pop_front() {
         let op = &op_owned;
+        let op_index: i64 = op.get("_i").and_then(|x| x.as_i64()).unwrap_or(-1);
         let name = op["op"].as_str().unwrap();
         if name == "lookup_all" {
             // every listed entry must be found by name (C06): expand into one find per entry
@@ -1087,7 +1089,7 @@ fn run_ops<const D: usize, const F: usize, const V: usize>(
         let api = op.get("api").and_then(|x| x.as_str()).unwrap_or("raw");
         match r {
             Ok((args, res)) => {
-                events.push(json!({"ev": "Call", "op": name, "a": args, "clk": clk, "api": api}));
+                events.push(json!({"ev": "Call", "op": name, "a": args, "clk": clk, "api": api, "i": op_index}));
                 drain_dev_log(&img.dev, &mut shadow, &img.geos, ctx.vals, events, stats, opts, &mut rng);
                 let obs = catch_unwind(AssertUnwindSafe(|| ctx.obs())).unwrap_or(json!([]));
                 let fateq = fat_copies_equal(&shadow.st, &img.geos);
@@ -1101,7 +1103,7 @@ fn run_ops<const D: usize, const F: usize, const V: usize>(
             Err(p) => {
                 stats.panics += 1;
                 // args unknown for a panicking call: re-derive what we can
-                events.push(json!({"ev": "Call", "op": name, "a": {"panicked": true, "spec": op}, "clk": clk, "api": api}));
+                events.push(json!({"ev": "Call", "op": name, "a": {"panicked": true, "spec": op}, "clk": clk, "api": api, "i": op_index}));
                 drain_dev_log(&img.dev, &mut shadow, &img.geos, ctx.vals, events, stats, opts, &mut rng);
                 events.push(json!({"ev": "Ret", "op": name, "r": {"k": "panic", "e": panic_msg(&p), "v": {}}, "obs": [], "fateq": true}));
                 break;
